@@ -1362,7 +1362,7 @@ def run(ctx):
     if noatom: rep.broken('no m4 mode symbol witnesses the generator condition(s) %s; cannot tell per variant which tables are written' % noatom)
 
     # ---- readers
-    vs = ctx.variants(lambda v: v.tables and v.backend != 'cxx') + [v for v in extra_variants(ctx) if v.ll is not None]
+    vs = ctx.variants(lambda v: v.tables and v.backend in ('nr', 'r')) + [v for v in extra_variants(ctx) if v.ll is not None]   # the manual: tables are a feature of the default C/C++ back end
     if ctx.variants(lambda v: v.tables and v.backend == 'cxx'):
         rep.note('a C++ tables-file variant compiles on this tree; its loader (mangled names, class members) is not analysed by C15 yet')
     if len(vs) < 6:
